@@ -546,7 +546,8 @@ def tensordot(a, b, axes=2, *, backend=None):
     try:
         # ensure hashable
         axes = tuple(map(int, axes[0])), tuple(map(int, axes[1]))
-    except IndexError:
+    except (IndexError, TypeError):
+        # an integer number of axes
         axes = int(axes)
 
     (
